@@ -202,4 +202,80 @@ def vApply (s : VSt) (t : Nat) (fault : Bool) : VSt × Option (Option Nat) :=
 /-- a heartbeat registers a volume with id m (or the replicated max is restored) -/
 def vHb (s : VSt) (m : Nat) : VSt := { s with max := if s.max < m then m else s.max }
 
+/-! ## etcd sequencer with the uint64 arithmetic of the Go code
+
+`start` / `kvStep` above compute with unbounded naturals.  The Go code computes in uint64 and CAN wrap:
+`count` is client supplied (`/dir/assign?count=`), `seenValue` comes from a heartbeat.  `startW` / `kvStepW`
+are the same machines with every uint64 addition/subtraction reduced mod 2^64 — these are the functions
+the correspondence check runs against the real `EtcdSequencer`.  Where nothing wraps they coincide with
+the unbounded ones (`startW_eq`, `kvStepW_eq` in Lemmas/C13W). -/
+
+/-- `NextFileId`: `if (es.currentSeqId + count) >= es.maxSeqId { reqSteps := DefaultEtcdSteps; if count > DefaultEtcdSteps { reqSteps += count } … }`
+    and `ret := es.currentSeqId; es.currentSeqId += count`, in uint64 -/
+def startW (s : ESt) (i : Nat) (op : Op) : ESt × Out :=
+  match op with
+  | .next count =>
+    let x := s.inst i
+    if x.pc ≠ .idle then (s, .invalid) else
+    if !x.alive then (s, .invalid) else
+    if (x.cur + count) % W ≥ x.max then
+      let req := if count > DefaultEtcdSteps then (DefaultEtcdSteps + count) % W else DefaultEtcdSteps
+      (setInst s i { x with pc := .bGet count req }, .cont)
+    else
+      (setInst s i { x with cur := (x.cur + count) % W }, .done (.key x.cur count))
+  | _ => start s i op
+
+/-- `batchGetSequenceFromEtcd`: `endSeqValue = prevSeqValue + step`; then
+    `es.currentSeqId, es.maxSeqId = maxId-reqSteps, maxId`, in uint64 -/
+def kvStepW (s : ESt) (i : Nat) (fault : Bool) : ESt × Option KvEv × Out :=
+  let x := s.inst i
+  match x.pc with
+  | .bSet count req prev =>
+    let nw := (prev + req) % W
+    if fault then (setInst s i { x with pc := .bGet count req }, some (.set prev nw 2), .cont) else
+    if s.kv = some prev then
+      let c0 := (nw + W - req) % W
+      let s1 := { s with kv := some nw }
+      let s2 := setInst s1 i { x with cur := (c0 + count) % W, max := nw, pc := .idle }
+      (setFile s2 x.slot nw, some (.set prev nw 0), .done (.key c0 count))
+    else (setInst s i { x with pc := .bGet count req }, some (.set prev nw 1), .cont)
+  | _ => kvStep s i fault
+
+/-! ## a heartbeat on a (new) leader, as two atomic steps
+
+`MasterServer.SendHeartbeat` handles one received heartbeat by (a) `ms.Topo.Sequence.SetMax(heartbeat.MaxFileKey)`
+and (b) registering the heartbeat's volumes in the topology (`SyncDataNodeRegistration` /
+`IncrementalSyncDataNodeRegistration` → `RegisterVolumeLayout`), after which `Assign` can pick them.
+Neither step runs under a lock shared with `Assign`, so an assign can run between the two. -/
+
+structure MSt where
+  seq : Mem                 -- the leader's sequencer (a new leader starts at 1)
+  writable : List Nat := [] -- volume ids an assign can pick
+deriving Repr, DecidableEq
+
+structure Heartbeat where
+  maxFileKey : Nat          -- largest needle key in any of the server's volumes
+  vols : List Nat           -- its volumes
+deriving Repr, DecidableEq
+
+inductive HbStep where
+  | setMax
+  | register
+deriving Repr, DecidableEq
+
+def hbStep (hb : Heartbeat) (s : MSt) : HbStep → MSt
+  | .setMax => { s with seq := s.seq.setMax hb.maxFileKey }
+  | .register => { s with writable := s.writable ++ hb.vols }
+
+/-- `Topology.PickForWrite`: a writable volume gets the next key; `none` = "no writable volumes" (the handler retries) -/
+def assign (s : MSt) (vid count : Nat) : Option (Nat × MSt) :=
+  if s.writable.contains vid then some ((s.seq.next count).1, { s with seq := (s.seq.next count).2 }) else none
+
+/-- the order of the two steps in `SendHeartbeat` (bridged to the source by `bridge_hb_order`) -/
+def hbOrder : List HbStep := [.setMax, .register]
+
+/-- run the first `k` steps of the heartbeat, then one assign -/
+def assignAfter (order : List HbStep) (hb : Heartbeat) (s : MSt) (k vid count : Nat) : Option (Nat × MSt) :=
+  assign ((order.take k).foldl (hbStep hb) s) vid count
+
 end SwV.Model.C13
